@@ -205,7 +205,6 @@ Load == /\ pc = "write" /\ pc' = "enter"
 
 \* ============================== setupTLS ==========================================
 Reject(class) == /\ err' = class /\ pc' = "rejected"
-Keep(vs) == UNCHANGED vs
 Line == dirs[d].lines[l]
 LArgs == Tail(Line)
 
